@@ -32,7 +32,7 @@ MODS = [["r"], ["r", "a"], ["r", "a", "x"], ["r", "b"], ["r", "c"]]
 LAYERS = [{"name": "X", "kind": "names", "listed": [["r", "a"]]}, {"name": "Y", "kind": "names", "listed": [["r", "b"]]},
           {"name": "Z", "kind": "names", "listed": [["r", "c"]]}]
 SEEDS = ["0", "1", "2", "3", "17", "99", "12345", "4294967295"]
-FAMS = {"rules": "Trace_Rules", "layers": "Trace_Layers", "diagram": "Trace_Diagram"}
+FAMS = {"rules": "Trace_Rules", "layers": "Trace_Layers", "diagram": "Trace_Diagram", "labels": "Trace_Labels"}
 
 
 def session_cfg(maxhist, maxarchs, nobjs, emit_len=None):
@@ -41,7 +41,7 @@ def session_cfg(maxhist, maxarchs, nobjs, emit_len=None):
     c = c.replace('ObjIds = {"o1", "o2"}', "ObjIds = {%s}" % ", ".join(f'"o{i}"' for i in range(1, nobjs + 1)))
     if emit_len is not None:
         c = c.replace("EMIT = FALSE", "EMIT = TRUE").replace("EmitLen = 0", f"EmitLen = {emit_len}")
-        c = c.replace("INVARIANT Functional", "INVARIANT EmitHist\nINVARIANT Functional")
+        c = c.replace("INVARIANT Functional", "INVARIANT EmitHist\nINVARIANT Functional").replace("VIEW View\n", "")
     return tlc.write_cfg(c)
 
 
@@ -305,9 +305,17 @@ def run_under_seeds(specs):
 
 def run(ctx):
     rng = random.Random(ctx.seed * 7919 + 15)
-    mc = tlc.require_ok(tlc.run("MC_Session.tla", session_cfg(3 if ctx.quick else 4, 2, 2), workers=16, timeout=3000,
-                                coverage=True), "model checking MC_Session")
-    tlc.require_actions_taken(mc, ["DoNew", "DoApply", "DoGrow"], "MC_Session")
+    depth = 4 if ctx.quick else 5
+    mc = tlc.require_ok(tlc.run("MC_Session.tla", session_cfg(depth, 2, 2), workers=16, timeout=3000,
+                                coverage=ctx.quick), "model checking MC_Session")
+    if ctx.quick:
+        tlc.require_actions_taken(mc, ["DoNew", "DoApply", "DoGrow", "DoViz", "DoQuery"], "MC_Session")
+    # vacuity guard: some reachable state pairs a rule with the graph question it is built from (the antecedent of
+    # RulesReportQueries) - the guard invariant must be refuted
+    gcfg = open(session_cfg(4, 2, 2)).read().replace("INVARIANT VizTotal", "INVARIANT VizTotal\nINVARIANT NoRuleMeetsItsQuery")
+    g = tlc.run("MC_Session.tla", tlc.write_cfg(gcfg), workers=16, timeout=3000)
+    if "NoRuleMeetsItsQuery" not in g.violated:
+        raise tlc.MachineryError("vacuity guard: no state of MC_Session pairs a rule with its graph question")
     fails, events, n_traces, tr_states, tr_trans = [], 0, 0, 0, 0
     # (R) long interleavings generated by TLC, replayed on shared real objects
     hists, sim = simulated_histories(40, 4 if ctx.quick else 120, seed=ctx.seed + 7)
@@ -433,8 +441,8 @@ def run(ctx):
                    "and distinct = distinct <family, configuration, architecture with at least one import> applied in a "
                    "session, plus the 'same' law instances",
            "exhaustive": False,
-           "exhaustive_part": f"Session.tla: all histories of New/Apply/Grow up to length {3 if ctx.quick else 4} over the "
-                              "catalogue (TLC): Pure, ObjectStable, Functional, Reapply",
+           "exhaustive_part": f"Session.tla: all histories of New/Apply/Grow/Visualize/Query up to length {depth} over the "
+                              "catalogue (TLC): Pure, ObjectStable, Functional, Reapply, RulesReportQueries, VizTotal",
            "samples": [hists[0][:6]]}
     return CheckResult(fails=fails, coverage=cov, assumptions=ASSUMPTIONS)
 
